@@ -51,9 +51,16 @@ def _wrap_archive(data: bytes, member_ext: str, how: str) -> tuple[bytes, str]:
     return bio.getvalue(), ".tar.gz" if how == "tgz" else ".tar"
 
 
-def _wrap_eml(data: bytes, member_ext: str) -> bytes:
+MAIL_VARIANTS = ("eml:named", "eml:named+typed", "eml:nameless+typed", "mbox:named", "mbox:named+typed", "mbox:nameless+typed")
+
+
+def _wrap_mail(data: bytes, member_ext: str, variant: str = "eml:named") -> tuple[bytes, str]:
+    """The input as attachment of a carrier message: .eml or single-message .mbox; with a file name, with the MIME type of
+    its extension, or with the type only (no filename / name parameter at all, as forwarded parts often are)."""
+    import mimetypes
     from email.message import EmailMessage
     from email import policy
+    carrier, how = variant.split(":")
     m = EmailMessage()
     m["From"] = "Sender <sender@example.org>"
     m["To"] = "rcpt@example.org"
@@ -61,8 +68,20 @@ def _wrap_eml(data: bytes, member_ext: str) -> bytes:
     m["Date"] = "Mon, 01 Jan 2024 10:00:00 +0000"
     m["Message-ID"] = "<carrier@example.org>"
     m.set_content("body qb00002z\n")
-    m.add_attachment(data, maintype="application", subtype="octet-stream", filename="member" + member_ext)
-    return m.as_bytes(policy=policy.SMTP)
+    ctype = (mimetypes.guess_type("member" + member_ext)[0] if "typed" in how else None) or "application/octet-stream"
+    if ctype.startswith(("message/", "multipart/")):
+        ctype = "application/octet-stream"        # (add_attachment wants a message object for these)
+    maintype, subtype = ctype.split("/", 1)
+    kw = {} if how.startswith("nameless") else {"filename": "member" + member_ext}
+    m.add_attachment(data, maintype=maintype, subtype=subtype, **kw)
+    raw = m.as_bytes(policy=policy.SMTP)
+    if carrier == "mbox":
+        raw = b"From sender@example.org Mon Jan  1 10:00:00 2024\r\n" + raw.replace(b"\r\nFrom ", b"\r\n>From ") + b"\r\n"
+    return raw, carrier
+
+
+def _wrap_eml(data: bytes, member_ext: str) -> bytes:
+    return _wrap_mail(data, member_ext)[0]
 
 
 def work(case):
@@ -107,11 +126,14 @@ def work(case):
         out["names"] = names[:6]
         return out
     if mode == "attachment":
-        eml = _wrap_eml(data, ext)
-        fn = obs.extractor("eml")
+        import zlib
+        variant = MAIL_VARIANTS[zlib.crc32(repr(case.get("recipe")).encode()) % len(MAIL_VARIANTS)]
+        eml, carrier = _wrap_mail(data, ext, variant)
+        out["mail_variant"] = variant
+        fn = obs.extractor(carrier)
         n = natt = 0
         try:
-            for r in fn(io.BytesIO(eml), "dir/carrier.eml"):
+            for r in fn(io.BytesIO(eml), "dir/carrier." + carrier):
                 n += 1
                 for _ in r.iterate_supported_attachments():
                     natt += 1
